@@ -18,6 +18,15 @@ CLAIMS = {
                  'exceptions. Totality over all inputs is not decided.',
         'technique': 'decorator/forwarding census + CFG gate rules + None-dereference (contradiction) rule + grammar-vs-table agreement (ast)',
     },
+    'C15': {
+        'level': 'Each give-up mechanism named by the property is checked where the recursion enters and on all exits: table of entry points '
+                 'and their guard (decorators, memo-with-default, execution_allowed keyed on the bare syntax node), PAIR rules for every '
+                 'push/pop and counter, limits are positive constants compared with >/>= on a path that answers "limit reached", the only '
+                 'exemptions are builtins/typing, defaults and sentinels are stored before computing, the interpreter limit is raised at '
+                 'import for the whole process, and every directly recursive function is triaged (graph recursions must carry a growing '
+                 'seen-set). Two genuine unbounded recursions on import cycles were repaired. The polynomial bound is not decided.',
+        'technique': 'guard/decorator table + CFG pair/must/gate rules + recursion inventory (ast)',
+    },
     'C16': {
         'level': 'Order: an inter-procedural may-analysis types expressions as ValueSet (identity-hashed) / set and marks sequences built by '
                  'iterating them without a sort; every listed query method\'s return value and every first-wins de-duplication in jedi/api is '
